@@ -6,7 +6,7 @@ SCRATCH="${SCRATCH:-/var/tmp/pbh-refac}"; export SCRATCH
 rm -rf "$SCRATCH"; mkdir -p "$SCRATCH" /var/tmp/thorough/ev; git -C /repo archive HEAD | tar -x -C "$SCRATCH"
 : > refactors/RESULTS.tsv
 for d in refactors/C*/; do
-  pid=$(basename $d)
+  pid=$(basename $d | cut -d- -f1)
   tools/refactest.sh "$d" "$pid" | tee -a refactors/RESULTS.tsv
 done
 rm -rf "$SCRATCH"
